@@ -124,7 +124,7 @@ PROPS["C06"] = {
     ],
     "assumptions": COMMON_ASSUME + ["at most the wsflate.MessageState send extension is attached (an extension whose SetBits errors makes "
                                     "Write spin, DESIGN §7 N1)", "destination honours io.Writer (n == len(p) on success)"],
-    "level_text": "Kernel-checked: history_ok - after ANY sequence of Write / WriteThrough / FlushFragment / Flush from a message boundary the frames sent are whole messages followed by the non-final frames of the message still open (first frame with the configured opcode and the extension's RSV, the rest continuations with RSV 0, exactly the last frame of each message final, final frames from Flush only) and the concatenated payloads followed by what is buffered equal the accepted bytes in order; the byte-level writer refines that frame-level writer operation by operation (flush/flushFrag/writeThrough/write_refines: exact wire bytes incl. the §5.2 header, masking with the drawn key iff client, the fill-flush-through loop of Write for every size relative to the buffer) AND over every history (run_refines / wire_history_ok: after any operation sequence the destination holds exactly the RFC encodings of the frames of history_ok, keys drawn in order; accepted_is_written: every byte handed to Write is accepted); header-reservation arithmetic across 125/126 and 65535/65536 (no flush can panic); empty flush emits nothing. PARTIAL: ReadFrom, Grow/DisableFlush, SetExtensions/ResetOp inside a history and destination failures are per-operation theorems (C16, C18) + ~14k exact correspondences per run and the independent frame-stream oracle.",
+    "level_text": "Kernel-checked: history_ok - after ANY sequence of Write / WriteThrough / FlushFragment / Flush from a message boundary the frames sent are whole messages followed by the non-final frames of the message still open (first frame with the configured opcode and the extension's RSV, the rest continuations with RSV 0, exactly the last frame of each message final, final frames from Flush only) and the concatenated payloads followed by what is buffered equal the accepted bytes in order; the byte-level writer refines that frame-level writer operation by operation (flush/flushFrag/writeThrough/write_refines: exact wire bytes incl. the §5.2 header, masking with the drawn key iff client, the fill-flush-through loop of Write for every size relative to the buffer) AND over every history (run_refines / wire_history_ok: after any operation sequence the destination holds exactly the RFC encodings of the frames of history_ok, keys drawn in order; accepted_is_written: every byte handed to Write is accepted); header-reservation arithmetic across 125/126 and 65535/65536 (no flush can panic); empty flush emits nothing; a Flush right after Reset / ResetOp or after a successful Flush sends nothing (C06Flush). PARTIAL: ReadFrom, Grow/DisableFlush, SetExtensions/ResetOp inside a history and destination failures are per-operation theorems (C16, C18) + ~14k exact correspondences per run and the independent frame-stream oracle.",
     "level_note": "Trusted: Lean kernel, the oracle's reading of the property, harness. Histories of Write/WriteThrough/FlushFragment/Flush are proved at the byte level; the other operations by per-operation theorems and correspondence.",
 }
 
@@ -148,7 +148,7 @@ PROPS["C04"] = {
     "trusted_base": READER_TB,
     "assumptions": COMMON_ASSUME + ["caller buffers are non-empty", "callbacks read only from the reader they are given",
                                     "no earlier error on the same reader (DESIGN §7 N2)"],
-    "level_text": 'Kernel-checked: message_delivered - for every data message (any number of fragments, empty ones included, control frames interleaved anywhere, masked or not), every chunking of the transport (empty chunks, data together with io.EOF) and every sequence of positive caller buffer sizes, what Reader.Read hands out is a prefix of the concatenation of the unmasked fragment payloads; no error but the final io.EOF is possible; io.EOF is reached within (bytes + chunks + 1) Reads; then the whole message has been delivered, the transport stands exactly behind its last frame and the reader is reset like a new one. Built on C01 (chunk-independent header decoding), C02 (cipher = XOR at any offset) and a one-Read step invariant (Proofs/Reader.lean). With an OnIntermediate handler (Props/C04Cb.message_delivered_collect, the handler wsutil.ReadMessage installs): the same delivery, and when io.EOF is reached the handler has been called exactly once per interleaved control frame, in stream order, with that frame\'s opcode and exact unmasked payload (step_cb / reads_cb in Proofs/ReaderCb thread the handler\'s log through the stream invariant). With CheckUTF8 on: C07.text_message. PARTIAL in scope: reader without receive extension, transport not delivering its last bytes together with a failure; the outer loops of the read helpers (ReadMessage, ReadData family: ReadAll / ReadFull over the reader, the replies written by ControlFrameHandler) and Discard are decided by the stream oracle + exact correspondence (~5k quick / ~100k thorough cases).',
+    "level_text": 'Kernel-checked: message_delivered - for every data message (any number of fragments, empty ones included, control frames interleaved anywhere, masked or not), every chunking of the transport (empty chunks, data together with io.EOF) and every sequence of positive caller buffer sizes, what Reader.Read hands out is a prefix of the concatenation of the unmasked fragment payloads; no error but the final io.EOF is possible; io.EOF is reached within (bytes + chunks + 1) Reads; then the whole message has been delivered, the transport stands exactly behind its last frame and the reader is reset like a new one. Built on C01 (chunk-independent header decoding), C02 (cipher = XOR at any offset) and a one-Read step invariant (Proofs/Reader.lean). With an OnIntermediate handler (Props/C04Cb.message_delivered_collect, the handler wsutil.ReadMessage installs): the same delivery, and when io.EOF is reached the handler has been called exactly once per interleaved control frame, in stream order, with that frame\'s opcode and exact unmasked payload (step_cb / reads_cb in Proofs/ReaderCb thread the handler\'s log through the stream invariant). With CheckUTF8 on: C07.text_message. PARTIAL in scope: reader without receive extension, transport not delivering its last bytes together with a failure; Discard: message_skipped / message_skipped_any - NextFrame then Discard from anywhere inside a message consumes exactly the rest of it (fragments and interleaved controls) for any chunking, CheckUTF8 on or off, no error, transport at the next message. The outer loops of the read helpers (ReadMessage, ReadData family: ReadAll / ReadFull over the reader, the replies written by ControlFrameHandler) are decided by the stream oracle + exact correspondence (~5k quick / ~100k thorough cases).',
     "level_note": 'Trusted: Lean kernel, Spec/Stream.lean (oracle), Model/Reader.lean as a hand model tied by correspondence, harness.',
 }
 
@@ -162,7 +162,7 @@ PROPS["C05"] = {
     "exhaustive_families": ["prefix shape x offending-frame alphabet x side (bounded-exhaustive)"],
     "trusted_base": READER_TB,
     "assumptions": COMMON_ASSUME + ["what a caller does with the reader after it returned an error is outside the property"],
-    "level_text": 'Kernel-checked: reject_at_first_bad - a message whose frames are valid up to some point followed by an offending frame (a framing rule broken in the state built up so far, or a length over MaxFrameSize): for every transport chunking and caller buffer schedule the Reads deliver exactly the data of the valid frames with no error, and the Read that reaches the offending frame returns the protocol error / ErrFrameTooLarge with zero bytes, the transport standing right behind the offending header (no payload byte read); first_frame_rejected for a message start; the reported rule is really broken (C03). Same scope restrictions as C04 (no extension, CheckUTF8 off, OnIntermediate unset); control frames over the limit, SkipHeaderCheck and the read helpers are decided by the oracle + correspondence.',
+    "level_text": 'Kernel-checked: reject_at_first_bad - a message whose frames are valid up to some point followed by an offending frame (a framing rule broken in the state built up so far, or a length over MaxFrameSize): for every transport chunking and caller buffer schedule the Reads deliver exactly the data of the valid frames with no error, and the Read that reaches the offending frame returns the protocol error / ErrFrameTooLarge with zero bytes, the transport standing right behind the offending header (no payload byte read); first_frame_rejected for a message start; the reported rule is really broken (C03); rsv_refused_without_negotiation - an attached extension does not lift the RSV rule while State lacks StateExtended. Same scope restrictions as C04 (no extension, CheckUTF8 off, OnIntermediate unset); control frames over the limit, SkipHeaderCheck and the read helpers are decided by the oracle + correspondence.',
     "level_note": "Trusted: Lean kernel, Spec/Stream.lean, harness and oracle.",
 }
 
@@ -176,7 +176,7 @@ PROPS["C16"] = {
     "trusted_base": READER_TB + ["Driver/C06.lean oracle: after a destination error no byte is sent and every write/flush reports it"],
     "assumptions": COMMON_ASSUME + ["a frame header cut after its first two bytes is io.EOF outside a fragmented message (an error, not success; DESIGN §7 N9)",
                                     "ReadFrom after a sticky error is outside 'write and flush' (N7)"],
-    "level_text": "Kernel-checked: cut_payload_never_succeeds - inside a frame of which the transport holds fewer bytes than announced, every sequence of Reads hands out only a genuine unmasked prefix and ends in io.ErrUnexpectedEOF or the transport's failure (never io.EOF), within (bytes + chunks + 1) Reads; stream_ends_between_fragments - after any valid prefix of an open message a clean transport end is io.ErrUnexpectedEOF; once the writer's error is set Write, WriteThrough, Flush and FlushFragment return it and leave the destination untouched; a failing flush sets it. The unchanged tree violated the property (F9, F10) - found by the oracle, repaired by fix commit 4fb3446. PARTIAL: handshake cuts, control-handler hand-over of cut payloads and ws.ReadFrame are enumerated at every cut offset (oracle), not theorems.",
+    "level_text": "Kernel-checked: cut_payload_never_succeeds - inside a frame of which the transport holds fewer bytes than announced, every sequence of Reads hands out only a genuine unmasked prefix and ends in io.ErrUnexpectedEOF or the transport's failure (never io.EOF), within (bytes + chunks + 1) Reads; stream_ends_between_fragments - after any valid prefix of an open message a clean transport end is io.ErrUnexpectedEOF; discard_cut / discard_open_tail - Discard of a cut frame, or of a message whose stream ends between two frames after any number of complete fragments and controls, reports io.ErrUnexpectedEOF (or the transport failure), never nil; once the writer's error is set Write, WriteThrough, Flush and FlushFragment return it and leave the destination untouched; a failing flush sets it. The unchanged tree violated the property (F9, F10) - found by the oracle, repaired by fix commit 4fb3446. PARTIAL: handshake cuts, control-handler hand-over of cut payloads and ws.ReadFrame are enumerated at every cut offset (oracle), not theorems.",
     "level_note": "Trusted: Lean kernel, harness, oracle. Handshake part pending the HTTP model.",
 }
 
